@@ -1,6 +1,6 @@
 (** Property C05: everything after [--] is delivered verbatim as positional values.
     Only pinned statements; proofs live in ParseProofs/Escape.v. *)
-From ClapModel Require Import Base.Bytes Base.Machine Base.Utf8.
+From ClapModel Require Import Base.Bytes Base.Machine Base.Utf8 Lex.OsStrExtModel.
 From ClapModel Require Import Parse.Cmd Parse.Build Parse.Valid Parse.Matcher Parse.Errors Parse.Validator Parse.Parser.
 From ClapModel Require Import ParseProofs.Escape.
 From Coq Require Import ZArith.
